@@ -1029,6 +1029,21 @@ def _eq(val1, val2) -> float:
             return 0.0
     except TypeError:
         pass
+    return _eq_distance(val1, val2)
+
+
+def _eq_distance(val1, val2) -> float:
+    """Estimates how far two values that are not equal are from being equal.
+
+    In contrast to `_eq`, no comparison operator of the values is evaluated.
+
+    Args:
+        val1: the first value
+        val2: the second value
+
+    Returns:
+        the distance
+    """
     if is_numeric(val1) and is_numeric(val2):
         return float(abs(val1 - val2))
     if is_string(val1) and is_string(val2):
@@ -1065,6 +1080,21 @@ def _lt(val1, val2) -> float:
     """
     if val1 < val2:
         return 0.0
+    return _lt_distance(val1, val2)
+
+
+def _lt_distance(val1, val2) -> float:
+    """Estimates how far ``val1`` is from being less than ``val2``, if it is not.
+
+    In contrast to `_lt`, no comparison operator of the values is evaluated.
+
+    Args:
+        val1: the first value
+        val2: the second value
+
+    Returns:
+        the distance
+    """
     if is_numeric(val1) and is_numeric(val2):
         return (float(val1) - float(val2)) + 1.0
     if is_string(val1) and is_string(val2):
@@ -1086,6 +1116,21 @@ def _le(val1, val2) -> float:
     """
     if val1 <= val2:
         return 0.0
+    return _le_distance(val1, val2)
+
+
+def _le_distance(val1, val2) -> float:
+    """Estimates how far ``val1`` is from being at most ``val2``, if it is not.
+
+    In contrast to `_le`, no comparison operator of the values is evaluated.
+
+    Args:
+        val1: the first value
+        val2: the second value
+
+    Returns:
+        the distance
+    """
     if is_numeric(val1) and is_numeric(val2):
         return float(val1) - float(val2)
     if is_string(val1) and is_string(val2):
@@ -1111,7 +1156,22 @@ def _in(val1, val2) -> float:
     except TypeError:
         # If `val2` does not support membership tests, we will handle it below.
         pass
+    return _in_distance(val1, val2)
 
+
+def _in_distance(val1, val2) -> float:
+    """Estimates how far ``val1`` is from being an element of ``val2``, if it is not.
+
+    In contrast to `_in`, neither the membership test nor a comparison operator of
+    the values is evaluated.
+
+    Args:
+        val1: the first value
+        val2: the second value
+
+    Returns:
+        the distance
+    """
     # TODO(fk) maybe limit this to certain collections?
     #  Check only if collection size is within some range,
     #  otherwise the check might take very long.
@@ -1121,7 +1181,20 @@ def _in(val1, val2) -> float:
         return inf
 
     # Use the shortest distance to any element of the iterable.
-    return min([_eq(val1, v) for v in val2] + [inf])
+    return min([_eq_distance(val1, v) for v in val2] + [inf])
+
+
+def _unit_distance(val1, val2) -> float:  # noqa: ARG001
+    """Distance to a branch that we cannot estimate any better, e.g., '!=' or 'is'.
+
+    Args:
+        val1: the first value
+        val2: the second value
+
+    Returns:
+        the distance
+    """
+    return 1.0
 
 
 def _nin(val1, val2) -> float:
@@ -1194,8 +1267,8 @@ def _false(value) -> float:
     Returns:
         the distance
     """
-    if isinstance(value, Sized):
-        # Sized instances evaluate to False if they are empty,
+    if isinstance(value, Sized) and getattr(type(value), "__bool__", None) is None:
+        # Sized instances without `__bool__` evaluate to False if they are empty,
         # and to True otherwise, thus we can use their size as a distance
         # measurement.
         return len(value)
@@ -1398,34 +1471,64 @@ class ExecutionTracer(AbstractExecutionTracer):  # noqa: PLR0904
             match cmp_op:
                 case PynguinCompare.EQ:
                     outcome = value1 == value2
-                    to_true, to_false = (_eq, value1, value2), (_neq, value1, value2)
+                    to_true, to_false = (
+                        (_eq_distance, value1, value2),
+                        (_unit_distance, value1, value2),
+                    )
                 case PynguinCompare.NE:
                     outcome = value1 != value2
-                    to_true, to_false = (_neq, value1, value2), (_eq, value1, value2)
+                    to_true, to_false = (
+                        (_unit_distance, value1, value2),
+                        (_eq_distance, value1, value2),
+                    )
                 case PynguinCompare.LT:
                     outcome = value1 < value2
-                    to_true, to_false = (_lt, value1, value2), (_le, value2, value1)
+                    to_true, to_false = (
+                        (_lt_distance, value1, value2),
+                        (_le_distance, value2, value1),
+                    )
                 case PynguinCompare.LE:
                     outcome = value1 <= value2
-                    to_true, to_false = (_le, value1, value2), (_lt, value2, value1)
+                    to_true, to_false = (
+                        (_le_distance, value1, value2),
+                        (_lt_distance, value2, value1),
+                    )
                 case PynguinCompare.GT:
                     outcome = value1 > value2
-                    to_true, to_false = (_lt, value2, value1), (_le, value1, value2)
+                    to_true, to_false = (
+                        (_lt_distance, value2, value1),
+                        (_le_distance, value1, value2),
+                    )
                 case PynguinCompare.GE:
                     outcome = value1 >= value2
-                    to_true, to_false = (_le, value2, value1), (_lt, value1, value2)
+                    to_true, to_false = (
+                        (_le_distance, value2, value1),
+                        (_lt_distance, value1, value2),
+                    )
                 case PynguinCompare.IN:
                     outcome = value1 in value2
-                    to_true, to_false = (_in, value1, value2), (_nin, value1, value2)
+                    to_true, to_false = (
+                        (_in_distance, value1, value2),
+                        (_unit_distance, value1, value2),
+                    )
                 case PynguinCompare.NOT_IN:
                     outcome = value1 not in value2
-                    to_true, to_false = (_nin, value1, value2), (_in, value1, value2)
+                    to_true, to_false = (
+                        (_unit_distance, value1, value2),
+                        (_in_distance, value1, value2),
+                    )
                 case PynguinCompare.IS:
                     outcome = value1 is value2
-                    to_true, to_false = (_is, value1, value2), (_isn, value1, value2)
+                    to_true, to_false = (
+                        (_unit_distance, value1, value2),
+                        (_unit_distance, value1, value2),
+                    )
                 case PynguinCompare.IS_NOT:
                     outcome = value1 is not value2
-                    to_true, to_false = (_isn, value1, value2), (_is, value1, value2)
+                    to_true, to_false = (
+                        (_unit_distance, value1, value2),
+                        (_unit_distance, value1, value2),
+                    )
                 case _:
                     raise AssertionError("Unknown compare op")
             distance_true, distance_false = _branch_distances(bool(outcome), to_true, to_false)
@@ -1465,7 +1568,7 @@ class ExecutionTracer(AbstractExecutionTracer):  # noqa: PLR0904
                 # its failure must not be visible there: the key is not present.
                 outcome = False
             distance_true, distance_false = _branch_distances(
-                outcome, (_in, value1, value2), (_nin, value1, value2)
+                outcome, (_in_distance, value1, value2), (_unit_distance, value1, value2)
             )
             self._update_metrics(distance_false, distance_true, predicate)
 
